@@ -1,15 +1,15 @@
 /-
 C25  CDC delivers every committed change at least once with its log index.
 
-Model: RqModel/Model/Cdc.lean (one node's pipeline: streamer → HWM filter → batcher →
+Model: RqModel/Model/CdcPipe.lean (one node's pipeline: streamer → HWM filter → batcher →
 FIFO → leader loop → endpoint; HWM broadcast/prune; snapshot sync; restart with raft
 replay), tied to the real cdc.Service + db.CDCStreamer + Bolt FIFO + HTTP sink by the C25
 correspondence run.
 -/
-import RqModel.Model.Cdc
+import RqModel.Model.CdcPipe
 import RqModel.Lemmas.Cdc7
 namespace C25
-open RqModel.Cdc RqModel.Fifo
+open RqModel.CdcPipe RqModel.Fifo
 
 /-- change `c` of entry `k` has reached the endpoint in a group labelled `k` -/
 def deliveredB (s : St) (c : Change) : Bool :=
